@@ -387,6 +387,13 @@ def main_wrapper(fn):
     except MachineryError as e:
         print('MACHINERY-ERROR:', e, file=sys.stderr)
         sys.exit(2)
+    except SystemExit:
+        raise
+    except BaseException:  # noqa: a failure of the harness, not a finding
+        import traceback
+        traceback.print_exc()
+        print('MACHINERY-ERROR: harness exception', file=sys.stderr)
+        sys.exit(2)
     sys.exit(rc)
 
 
